@@ -14,6 +14,10 @@ for P in "$@"; do
       C10) CHK=C10,C09 ;;
       C16) CHK=C16,C03 ;;
       C19) CHK=C19,C05 ;;
+      C08) CHK=C08,C09 ;;
+      C09) CHK=C09,C08,C07 ;;
+      C17) CHK=C17,C18,C06 ;;
+      C18) CHK=C18,C17 ;;
       *) CHK=$P ;;
     esac
     python3 /verif/bin/dev/confirm_mutant.py $P $D $P-$K $CHK 2>&1 | python3 -c "
